@@ -43,6 +43,7 @@ def demo_plan(base):
     for line in where.splitlines():
         if 'go test' in line or 'go run' in line:
             cmd = line.strip().lstrip('$ ').strip()
+            cmd = re.sub(r'^cd\s+\S+\s*&&\s*', '', cmd)
             break
     if not cmd:
         raise SystemExit('no run command in WHERE.txt')
